@@ -46,6 +46,10 @@ pub fn check(c: &Case) -> Result<Vec<&'static str>, Failure> {
     // with colours on the output is compared after stripping ANSI sequences; a text that itself contains ESC
     // cannot be told apart from colour codes, so such texts are checked with colours off
     let use_color = c.color && !c.text.contains('\x1b') && !c.file.as_deref().unwrap_or("").contains('\x1b');
+    // (the same file is compiled into `frontnc` against the runtime crate without its `colored` feature)
+    #[cfg(feature = "nocolor")]
+    let use_color = false && use_color;
+    #[cfg(not(feature = "nocolor"))]
     colored::control::set_override(use_color);
     let text = c.text.clone();
     let file = c.file.clone();
@@ -53,6 +57,7 @@ pub fn check(c: &Case) -> Result<Vec<&'static str>, Failure> {
         let p = PrettyParseError::from_parse_error(&err, &text, file.as_deref());
         format!("{}", p)
     });
+    #[cfg(not(feature = "nocolor"))]
     colored::control::set_override(false);
     let (line, col, line_text) = expected(&c.text, c.pos);
     let want_loc = match &c.file {
